@@ -165,6 +165,17 @@ theorem reservation_release_consume (k : Kind) (mode : Nat) (f : Nat → Nat) (h
     simp [bufStep, noub, hr, consumeFront, hp, hv']
   · intro hq a; subst hq; simp [bufStep, noub, hr]
 
+/-- **A reservation pins its item**: while the reservation on `x` is held, no operation other than release /
+consume — puts (incl. ring growth), try_gets of the other items of a buffer_node, further reserve attempts,
+forwarding attempts — removes, hands out or un-reserves `x`: it stays the reserved front item. -/
+theorem reserved_front_stable (k : Kind) (mode : Nat) (f : Nat → Nat) (hk : k ≠ .sequencer)
+    (hm : k = .buffer → 1 ≤ mode) (ops : List BufOp) (x : Nat) (rest : List Slot) (op : BufOp) :
+    let s := ((bufMach k mode f).run ops).1
+    s.reserved = true → s.buf.view = some (x, true) :: rest → op ≠ .release → op ≠ .consume →
+      (bufStep k mode f s op).1.reserved = true ∧ ∃ rest', (bufStep k mode f s op).1.buf.view = some (x, true) :: rest' := by
+  intro s hr hv h1 h2
+  exact reserved_front_stable_step k mode f hk hm s (ninv_run k mode f hk hm ops) x rest hr hv op h1 h2
+
 /-- The pinned tree's buffer_node (`mode = 0`: `internal_pop` = `pop_back` without looking at `my_reserved`)
 does NOT have the property: `put 7; try_reserve → 7; try_get → 7` hands the reserved item out a second time, and
 the following `try_consume` violates the asserted precondition of `destroy_front` (undefined behaviour; on the
